@@ -97,6 +97,24 @@ Theorem C10_dispatch_only_eligible :
       forall s, In s (dispatch_set g') <-> (In s (g_steps g') /\ eligible_spec g' s = true).
 Proof. exact dispatch_only_eligible_repo. Qed.
 
+(* The named-resource term of the dispatch query is TRANSLATED (GenSched.ru_where: the conjuncts that say which
+   steps' units are subtracted from the available ones).  With the conjuncts [RuRunning] -- the units of every
+   RUNNING step, attached or not: the repository's query, generated fact ru_where_repo -- the dispatch set of a
+   snapshot whose cached attributes are correct is exactly the set of eligible steps ... *)
+Theorem C10_dispatch_set_is_eligible_for_running_usage :
+  forall g s, AllCorrect g -> HasHashInv g -> In s (g_steps g) ->
+    (In s (dispatch_set_with [RuRunning] g) <-> eligible_spec g s = true).
+Proof. exact dispatch_set_with_running_is_eligible. Qed.
+
+(* ... and NOT when only attached steps are counted: a step that was detached while RUNNING (it is not killed)
+   still holds its units; a snapshot with every cached attribute correct has a step in the dispatch set whose
+   named resource is not free. *)
+Theorem C10_dispatch_refuted_for_usage_ignoring_detached_running_steps :
+  exists g, WF g /\ Acyclic g /\ AllCorrect g /\ HasHashInv g /\
+    exists s, In s (dispatch_set_with ru_attached_only g) /\ eligible_spec g s = false /\
+              s_hash_stored s = false /\ res_unavailable g s = true.
+Proof. exact dispatch_ignoring_detached_running_refuted. Qed.
+
 (* Every step in the dispatch set is pending, attached, not deferred, needed above the threshold,
    has all inputs available, is created by steps that are RUNNING/SUCCEEDED and not holding (or has
    a stored hash and only a hold stands in the way: it is then only checked), and has its resources
@@ -201,11 +219,12 @@ Theorem C10_nothing_parked_with_repair :
     parked_for_nothing (drun true true evs g) s = false.
 Proof. exact repaired_nothing_parked. Qed.
 
-(* For the shape the repository has (generated: trg_undefer_on_reattach, validate_unchanged_computed). *)
+(* For the shape the repository has (generated facts trg_undefer_on_reattach = true, validate_unchanged_computed =
+   true since repo 84081f2; if either regresses this proof stops compiling and the two witness histories below are
+   replayed on the real Workflow + Scheduler by the oracle in every run). *)
 Theorem C10_deferred_is_justified_repo :
-  trg_undefer_on_reattach && validate_unchanged_computed = true ->
   forall evs g, DeferInv g -> DeferInv (drun_repo evs g).
-Proof. exact repo_history_keeps_invariant. Qed.
+Proof. exact (repo_history_keeps_invariant eq_refl). Qed.
 
 (* D39: NOT true for the three other shapes -- repo d760e3e..3ce20a7 (no trigger, literal True), the trigger
    alone (the outcome of a validation job that was in flight during the recycle is committed afterwards), the
@@ -526,6 +545,8 @@ Proof. intros. apply init_minv. Qed.
        (three decidable conditions -- run_ok_b, coupled_b, inv_core_b && ntc_b -- that the correspondence
        evaluates on every real transaction),
      - the metadata updates of pop_next_job.
+     - finalize.revert_optional_steps between two phases (FlagInv proved for it from any state:
+       C11_revert_optional_keeps_flag_invariant; the stored workflow its result is coupled to is certified).
    At every such state the three updates terminate, afterwards EVERY cached attribute of EVERY step
    equals its definition and no flag is left, and the dispatch query returns exactly the eligible
    steps.  Partial: without the certificates the statement is C10_graph_ops_preserve_FlagInv_full. *)
